@@ -185,6 +185,8 @@ static std::string callv(const std::string& key, const std::vector<Integer>& a) 
         return hz(g);
     }
     if (key == "pollard") { Integer g(-7); IF.Pollard(gen, g, n, (unsigned long)(uint64_t)a[1]); return hz(g); }
+    if (key == "factorl") { Integer r(-7); IF.factor(r, n, (unsigned long)(uint64_t)a[1]); return hz(r); }                  // the overloads with a bound
+    if (key == "iffactorprimel") { Integer r(-7); std::streambuf* old = std::cerr.rdbuf(nullptr); IF.iffactorprime(r, n, (unsigned long)(uint64_t)a[1]); std::cerr.rdbuf(old); return hz(r); }   // on Pollard's loops
     if (key == "fermat") { Integer f(-7); FD.fermat(f, (size_t)(uint64_t)n); return hz(f); }
     if (key == "pepin") { return FD.pepin((size_t)(uint64_t)n) ? "1" : "0"; }
     if (key == "isprimer") return vp::hex_ll(IP.isprime(n, (int)(int64_t)a[1]));
@@ -330,7 +332,7 @@ static void runv(const std::string& key, const std::vector<Integer>& a) {
     }
 }
 static bool is_vkey(const std::string& k) {
-    for (const char* v : {"lenstra", "pollard", "fermat", "pepin", "isprimer", "localprime", "tabule", "tabule2", "miller", "lehmann", "lehmannb", "millers", "lehmanns",
+    for (const char* v : {"lenstra", "pollard", "fermat", "pepin", "isprimer", "localprime", "tabule", "tabule2", "miller", "lehmann", "lehmannb", "millers", "lehmanns", "factorl", "iffactorprimel",
                           "write", "erat", "factorL", "setL", "divinto", "divalias", "setinto", "set1into", "eratinto", "writeinto"}) if (k == v) return true;
     return false;
 }
@@ -429,6 +431,13 @@ static void gen(const std::string& tier, uint64_t seed) {
         if ((i & 7) == 0) fa.push_back(p * q * Integer((uint64_t)SP[g.below(NSP)]));
         if ((i & 15) == 0) fa.push_back(p);
     }
+    for (int i = 0; i < (th ? 12 : 4); ++i) {          // two primes near 2^32 (n near 2^64), squares of such primes, primes around the table boundary 2^16
+        Integer p = gmp_nextprime(pw(Integer(2), 32) - Integer((uint64_t)g.below(1u << 14)));
+        Integer q = gmp_nextprime(pw(Integer(2), 32) + Integer((uint64_t)g.below(1u << 14)));
+        fa.push_back(p * q); fa.push_back(p * p);
+        if (i == 0) { fa.push_back(q * q); fa.push_back(p * q * 2); fa.push_back(p * p * 9); }
+    }
+    for (const char* t : {"4293001441", "4295098369", "4294049777", "4611686014132420609", "9223372030412324863", "18446744030759878681"}) fa.push_back(Integer(t));   // 65521^2, 65537^2, 65521*65537, (2^31-1)^2, (2^31-1)*(2^32-5), (2^32-5)^2
     fa.push_back(Integer("18446744073709551617"));   // F6 = 274177 * 67280421310721
     fa.push_back(Integer("1208907372870555465154561"));
     size_t nf = fa.size();
@@ -444,6 +453,12 @@ static void gen(const std::string& tier, uint64_t seed) {
         run("divisors", n);
         run("set1", n);
     }
+    // factor / iffactorprime with an explicit bound on Pollard's loops (0 = unbounded, the default argument)
+    for (size_t i = 0; i < fa.size(); i += (th ? 2 : 7))
+        for (unsigned long loops : {0UL, 1UL, 3UL, 100UL, 100000UL}) if (!heavy(fa[i])) {
+            runv("factorl", {fa[i], Integer((uint64_t)loops)});
+            runv("iffactorprimel", {fa[i], Integer((uint64_t)loops)});
+        }
     // the loops-bounded variant: small bounds make Pollard give up (partial contract), large ones complete
     for (size_t i = 0; i < fa.size(); i += (th ? 3 : 11))
         for (unsigned long loops : {1UL, 2UL, 3UL, 7UL, 40UL, 5000UL}) if (!heavy(fa[i])) run_setl(fa[i], loops);
